@@ -1,6 +1,8 @@
 import StorageModel.Driver.Common
 import StorageModel.C17.Snapshot
 import StorageModel.C17.Staged
+import StorageModel.C17.Paths
+import StorageModel.C17.PathTable
 import StorageModel.C17.TimelineConc
 import StorageModel.C17.LockTable
 import StorageModel.Generated.DbLocks
@@ -15,6 +17,13 @@ import StorageModel.Generated.DbLocks
                                            transaction before / after the copy -> intx:<pre obs>:<main obs>:<post obs>
 
      tlconc <K> <modes> <pre>              K GetTimelineId requests released together after a restore -> ok | ok|tlrace
+
+     snapp:<k>:<tmpl>  snaptp:<k>:<tmpl>  snapup:<k>:<ws>:<tmpl>
+                                           Snapshot / View+SnapshotInTx / Update+SnapshotInTx with a path TEMPLATE
+                                           (C17/Paths.lean; relative to the db directory unless it starts with
+                                           DB_DIR/ or __DB_DIR__/); slot k = the file under the RETURNED path
+                                           -> snapped:<id>:<dump>@<returned path>@<other directory entries created, `,`-joined or ->
+                                           (directory shown as $D, date / time strings as <D> / <T>)
 
    default mode : case line                  -> the model's observations
    `spec` mode  : case line TAB impl output  -> `ok`, or `fail@<i>:<op>` naming the first operation at
@@ -240,11 +249,45 @@ def tlconcOutcomes : String :=
       s.sys.idf != 1 || s.reqs.any fun r => r != .done (some 1) && (match r with | .done _ => true | _ => false)
     if racy then "ok|tlrace" else "ok"
 
+/-- the environment of the expansion in canonical form: the harness shows the temporary directory as
+    `$D` and the date / time strings of the call as `<D>` / `<T>` (digits only in reality, so like these
+    they contain no placeholder) -/
+def symEnv : Env := { date := "<D>".toList, time := "<T>".toList, dbDir := "$D".toList, dbFile := "live.db".toList }
+
+def fullTemplate (tmpl : String) : Path :=
+  if tmpl.startsWith "DB_DIR/" || tmpl.startsWith "__DB_DIR__/" then tmpl.toList else "$D/".toList ++ tmpl.toList
+
+/-- a token with a path template = the slot-level token + the template -/
+def splitPathTok (tok : String) : String × Option String :=
+  match tok.splitOn ":" with
+  | ["snapp", k, t] => (s!"snap:{k}", some t)
+  | ["snaptp", k, t] => (s!"snapt:{k}", some t)
+  | ["snapup", k, ws, t] => (s!"snapu:{k}:{ws}", some t)
+  | _ => (tok, none)
+
+/-- what the path-level model says about the call: the returned path (expansion by the chain of ReplaceAll calls
+    read off the regenerated table) and the other files it leaves in an empty directory -/
+def pathObs (tmpl : String) : String :=
+  match (readPathProgram Generated.dbSnapshotPathOps).bind (fun reps => expandTable symEnv reps (fullTemplate tmpl)) with
+  | none => "@unmodelled@-"
+  | some p =>
+    let r := snapshotFiles ⟨p, p, p⟩ 1 {} []
+    let others := (r.2.filter (fun pd => pd.1 != r.1)).map (fun pd => String.ofList pd.1)
+    "@" ++ String.ofList r.1 ++ "@" ++ (if others.isEmpty then "-" else ",".intercalate others)
+
+def stripPathObs (o : String) : String := (o.splitOn "@").headD o
+
 def step (line : String) : String :=
   match splitSp line with
   | "seq" :: toks =>
-    match toks.mapM parseXOp with
-    | some ops => " ".intercalate ((StorageModel.C17.xrun {} ops).2.map renderXObs)
+    let sp := toks.map splitPathTok
+    match (sp.map (·.1)).mapM parseXOp with
+    | some ops =>
+      let obs := (StorageModel.C17.xrun {} ops).2.map renderXObs
+      " ".intercalate ((obs.zip (sp.map (·.2))).map fun ot =>
+        match ot.2 with
+        | some t => if ot.1.startsWith "snapped" then ot.1 ++ pathObs t else ot.1
+        | none => ot.1)
     | none => "bad-case"
   | ["conc", kinds, _, _] => concOutcomes kinds
   | ["stage", which] => stageOutcomes which
@@ -256,7 +299,9 @@ def specStep (line : String) : String :=
   | [case, impl] =>
     match splitSp case with
     | "seq" :: toks =>
-      match toks.mapM parseXOp, (splitSp impl).mapM parseXObs with
+      -- the property speaks about the file the caller finds under the returned path, not about its name:
+      -- the path part of the observation is compared with the model only
+      match (toks.map fun t => (splitPathTok t).1).mapM parseXOp, ((splitSp impl).map stripPathObs).mapM parseXObs with
       | some ops, some obs =>
         if obs.length != ops.length then "unparsed"
         else match xspecFirstFail {} ops obs 0 with
